@@ -8,7 +8,7 @@ from . import proggen as G
 
 # names: a global, a local under scope `scope0`, a direct spelling of another local
 NAMES = [("glob", "glob"), ("scope0.loc", ".loc"), ("scope0.dir", "scope0.dir")]
-OPS = ["label", "defl", "defn", "redefl", "redefn", "undef", "isdef", "use", "early"]
+OPS = ["label", "defl", "defn", "redefl", "redefn", "undef", "isdef", "use", "early", "defsum", "use2"]
 
 
 def build(history, rng):
@@ -45,6 +45,18 @@ def build(history, rng):
             e = ("bin", "band", ("sym", q, sp), ("num", 0xFF))
             stmts.append(("db", e))
             lines.append(f"@db {sp} & $ff")
+        elif op == "defsum":
+            # defined from two other names (possibly the same one twice, possibly not yet defined):
+            # chains and diamonds through lazily defined names
+            qa, qb = NAMES[(ni + 1 + v % 2) % 3][0], NAMES[(ni + 1 + (v // 2) % 2) % 3][0]
+            e = ("bin", "add", ("sym", qa, qa), ("sym", qb, qb))
+            lazy = v % 3 != 0
+            stmts.append(("define", lazy, q, e))
+            lines.append(f"@{'defl' if lazy else 'defn'} {sp}, {qa} + {qb}")
+        elif op == "use2":
+            e = ("bin", "band", ("bin", "add", ("sym", q, sp), ("sym", q, sp)), ("num", 0xFF))
+            stmts.append(("db", e))
+            lines.append(f"@db {sp} + {sp} & $ff")
         elif op == "early":
             e = ("bin", "band", ("bin", "add", ("sym", q, sp), ("num", 1)), ("num", 0xFFFF))
             stmts.append(("dw", e))
@@ -136,7 +148,7 @@ def run(tier, seed):
     return chk.finish(
         checker_cmd="cd /verif/lean && lake build Az65.Thm.C08 && #print axioms audit",
         trusted_base=C.TRUSTED + ["checks/proggen.py reference (snapshot of computable names at the use, final-table value otherwise)"],
-        rule="case = history of {label, @defl, @defn, @redefl, @redefn (incl. X+1 self-updates), @undef, @isdef probe, immediate use, early use} over three names, a @db/@dw probe per use; distinct = distinct histories")
+        rule="case = history of {label, @defl, @defn, @redefl, @redefn (incl. X+1 self-updates), definition from two other names (chains, diamonds), @undef, @isdef probe, use, use mentioning the name twice, early use} over three names, a @db/@dw probe per use; distinct = distinct histories")
 
 
 replay = core.replay
